@@ -94,12 +94,20 @@ class SymHash:
 
     def hexdigest(self):
         t = smt.H(self.s.t)
-        return SymStr(t, [('atom', t, HEX)])
+        return SymStr(t, [('atom', t, HEX)], (self.s, None, None))
+
+
+HASH_MODE = ['auto']      # 'auto': real sha256 for concrete text, H(text) for symbolic; 'uf': always H(text)
 
 
 def sx_sha256(data=b''):
     if isinstance(data, SymBytes):
         return SymHash(data.s)
+    if HASH_MODE[0] == 'uf' and isinstance(data, bytes):
+        try:
+            return SymHash(SymStr(z3.StringVal(data.decode()), None))
+        except UnicodeDecodeError:
+            pass
     import hashlib
     return hashlib.sha256(data)
 
@@ -127,6 +135,16 @@ class SX:
     # ---- builtins (intercepted only when the evaluated callee *is* the builtin and an argument is symbolic)
     @staticmethod
     def b(fn, name, *args):
+        if name == 'Path':
+            if len(args) == 1 and isinstance(args[0], SymStr):
+                return SymPathObj(args[0])
+            if len(args) == 1 and isinstance(args[0], SymPathObj):
+                return args[0]
+            return fn(*args)
+        if args and isinstance(args[0], SymPathObj) and name in ('repr', 'str') and getattr(builtins, name) is fn:
+            if name == 'str':
+                return SX.b_str(args[0].s)
+            return sx_add(sx_add('PosixPath(', SX.b_repr(SymStr(args[0].s.t, args[0].s.segs))), ')')
         if args and getattr(builtins, name, None) is fn:
             a0 = args[0]
             if isinstance(a0, Sym) or (name in ('repr', 'str', 'sorted', 'list', 'format', 'print') and has_sym(a0)):
@@ -253,9 +271,11 @@ class SX:
         c = cur()
         if c.decide(z3.Not(z3.Contains(v.t, z3.StringVal("'")))):
             return sx_add(sx_add("'", SymStr(v.t, v.segs)), "'")
-        if c.decide(z3.Not(z3.Contains(v.t, z3.StringVal('"')))):
-            return sx_add(sx_add('"', SymStr(v.t, v.segs)), '"')
-        raise SxUnsupported('repr() of a string that needs escaping')
+        # contains ' : CPython switches to double quotes unless the string also contains "; that case needs
+        # escaping, which is not modelled -> assumed away (recorded as an assumption of the run)
+        c.assume(z3.Not(z3.Contains(v.t, z3.StringVal('"'))))
+        c.assumptions_used.add('strings rendered by Python repr() do not contain both quote characters')
+        return sx_add(sx_add('"', SymStr(v.t, v.segs)), '"')
 
     # ---- f-strings
     @staticmethod
@@ -328,7 +348,20 @@ class SX:
             if name in ('subn', 'sub', 'match', 'fullmatch') and len(args) >= 2 and isinstance(args[-1], Sym) \
                     or (name in ('subn', 'sub') and len(args) == 3 and isinstance(args[2], Sym)):
                 return SX.regex(name, *args, **kwargs)
+            if name in ('subn', 'sub') and len(args) == 3 and args[0] == r'{(.*?)}' and type(args[2]) is str:
+                # concrete subject whose replacement callback may return a symbolic string
+                try:
+                    return getattr(obj, name)(*args, **kwargs)
+                except TypeError as e:
+                    if 'expected str instance' not in str(e):
+                        raise
+                    res, n = SX._subn_braces(args[1], SymStr(z3.StringVal(args[2]), [('lit', args[2])]))
+                    return (res, n) if name == 'subn' else res
             return getattr(obj, name)(*args, **kwargs)
+        if name == 'to_pickle' and args:
+            from . import mfs, env
+            if isinstance(args[0], mfs.MPath):
+                return env.to_pickle(obj, *args, **kwargs)
         if name == '__new__' and obj is str and len(args) == 2 and isinstance(args[1], SymStr):
             if args[0] is str:
                 return args[1]
@@ -436,6 +469,31 @@ class SX:
         return res, n
 
 
+class SymPathObj:
+    """pathlib.Path(<symbolic string>): only its identity as a Path and its source string are meaningful."""
+    import pathlib as _pl
+    __class__ = property(lambda self, _c=_pl.PosixPath: _c)
+
+    def __init__(self, s):
+        self.s = s
+
+    def __eq__(self, o):
+        if isinstance(o, SymPathObj):
+            return self.s == o.s
+        return False
+
+    def __ne__(self, o):
+        return not self.__eq__(o)
+
+    __hash__ = None
+
+    def __str__(self):
+        raise SxUnsupported('str() of a symbolic path')
+
+    def __fspath__(self):
+        raise SxUnsupported('symbolic path used on the file system')
+
+
 class SymSet:
     """A set whose rendering order is a symbolic permutation (models PYTHONHASHSEED); elements concrete or symbolic."""
 
@@ -476,8 +534,8 @@ class SymSet:
         raise SxUnsupported('hash of SymSet')
 
 
-STR_METHODS = {'__new__', 'subn', 'sub', 'match', 'fullmatch', 'join', 'startswith', 'endswith', 'replace', 'format'}
-BUILTINS = {'type', 'len', 'repr', 'str', 'hasattr', 'hash', 'int', 'format', 'sorted', 'list', 'bool', 'print'}
+STR_METHODS = {'to_pickle', '__new__', 'subn', 'sub', 'match', 'fullmatch', 'join', 'startswith', 'endswith', 'replace', 'format'}
+BUILTINS = {'Path', 'type', 'len', 'repr', 'str', 'hasattr', 'hash', 'int', 'format', 'sorted', 'list', 'bool', 'print'}
 
 
 def _sx(attr):
@@ -625,6 +683,7 @@ def install(full=True, root=None, pkg='taskchain'):
     import logging
     # console output of task loggers is noise here; handlers themselves are left alone (C18 looks at them)
     taskchain.chain.Chain.log_handler.setLevel(logging.CRITICAL)
+    logging.lastResort = logging.NullHandler()
 
 
 def entered(prefixes=None):
